@@ -63,7 +63,8 @@ def main():
     finally:
         sh(f"git -C /repo worktree remove --force {SCR}")
     ok = (rec["confirmed"].get("applies") and rec["confirmed"].get("demo_unchanged_exit") == 0
-          and rec["confirmed"].get("demo_changed_exit", 0) != 0 and rec["confirmed"].get("suite") == "3 failed, 8055 passed")
+          and rec["confirmed"].get("demo_changed_exit", 0) != 0 and str(rec["confirmed"].get("suite", "")).startswith("3 failed, 805")
+          and all(any(k in f for k in ("Coyhaique", "Manila")) for f in rec["confirmed"].get("suite_failures", ["x"])))
     rec["confirmed"]["valid_seed"] = bool(ok)
     # 2. our checks against it
     rec["checks"] = {}
